@@ -56,14 +56,29 @@ impl MsgSpec {
         let mut rng = crate::rng::Rng::new(self.id as u64 ^ ((self.salt as u64) << 32) ^ 0x5eed);
         let mut map = BTreeMap::new();
         for i in 0..self.headers {
-            let key = format!("h{}-{}", i, rng.below(1000));
+            // boundary lengths of keys and of raw / string values: 1, 254 and 255 bytes
+            let key = match rng.below(12) {
+                0 => format!("{}", (b'a' + i) as char),
+                1 => format!("{}{}", "k".repeat(253), i),
+                2 => format!("{}{}", "k".repeat(254), i),
+                _ => format!("h{}-{}", i, rng.below(1000)),
+            };
             let kind = 1 + rng.below(15) as u8;
+            let boundary = match rng.below(12) {
+                0 => Some(1usize),
+                1 => Some(254),
+                2 => Some(255),
+                _ => None,
+            };
             let value: Vec<u8> = match kind {
                 1 => {
-                    let n = 1 + rng.usize_below(20);
+                    let n = boundary.unwrap_or(1 + rng.usize_below(20));
                     rng.bytes(n)
                 }
-                2 => format!("v{}", rng.below(1_000_000)).into_bytes(),
+                2 => match boundary {
+                    Some(n) => "v".repeat(n).into_bytes(),
+                    None => format!("v{}", rng.below(1_000_000)).into_bytes(),
+                },
                 3 => vec![rng.below(2) as u8],
                 4 | 9 => rng.bytes(1),
                 5 | 10 => rng.bytes(2),
